@@ -429,5 +429,11 @@ def run(ctx):
            rl13.mod, hits[0][1] if hits else rl13.fn)
     if len(hits) == 1:
         c13.filter_rules(ctx, 'C06.R4', 'C06.R4', rl13, hits[0][1])
+    # ... and the terminus bookkeeping of the reader identifies a residue by chain,
+    # number and insertion code (rule shared with C01/C05/C07): with the chain
+    # left out, a chain that starts with the number the previous chain ended on
+    # is taken for a continuation of that residue - until it is renumbered
+    from checks.recordloop import check_terminus_latch
+    check_terminus_latch(ctx, 'C06.R4', rl13)
     ctx.assume('that relabelling leaves every float bit-identical is not decided (atom order '
                'inside a list can change summation order)')
